@@ -4,7 +4,11 @@ AllCids == {"valid", "rejected", "missing"}
 AllKinds == {"accepted", "fieldRejected", "dupRejected", "shares", "lateDamage", "missing", "directory"}
 AllUntils == {"absent", "all", "0", "k2", "k9"}
 OkArgs == {"ok"}
-BadArgs == {"none", "unknownOption", "untilTooSmall", "untilNotNumber"}
+BadArgs == {"none", "unknownOption", "untilTooSmall", "untilNotNumber", "badLogLevel", "untilWithoutValue", "pluginsWithoutValue", "optionBetweenCidAndData"}
+Plain == {"plain"}
+AllDecorations == {"plain", "logDebug", "logCritical", "pluginsEmpty", "shortUntil", "untilEquals", "optionsLast"}
+SomeKinds == {"accepted", "fieldRejected", "dupRejected", "missing"}
+SomeUntils == {"absent", "k2", "0"}
 OneCid == {"valid"}
 NoFiles == {"accepted"}
 =============================================================================
